@@ -57,6 +57,7 @@ from .high_level_command_stream import DMA
 from .high_level_command_stream import NOP
 from .high_level_command_stream import NpuStripe
 from .numeric_util import quantise_float32
+from .numeric_util import round_away_zero
 from .numeric_util import round_up
 from .operation import NpuBlockType
 from .operation import Op
@@ -650,6 +651,15 @@ def create_npu_elementwise_op(cmd: NpuStripe, arch: ArchitectureFeatures) -> Npu
         if op.activation is not None and op.activation.op_type in (Op.Sigmoid, Op.Tanh):
             output_scale = 1 / 0x3000
     if output_scale is not None:
+        act = npu_op.activation
+        ofm_scale = npu_op.ofm.quantization.scale_f32
+        if act is not None and act.op_type == NpuActivationOp.NONE_OR_RELU and ofm_scale is not None:
+            # The clamping range is quantised with the OFM quantisation; keep it in the OFM tensor's scale
+            # when the scale below only carries the output rescale
+            if act.min is not None:
+                act.min = output_scale * round_away_zero(act.min / ofm_scale)
+            if act.max is not None:
+                act.max = output_scale * round_away_zero(act.max / ofm_scale)
         npu_op.ofm.quantization = NpuQuantization(scale_f32=output_scale, zero_point=npu_op.ofm.quantization.zero_point)
     return npu_op
 
